@@ -1,1 +1,17 @@
+//! iolib — case types, generators, mocks and interpreters shared by the C11/C12 check binaries
+//! (`/verif/ws-io/c11`, `/verif/ws-io/c12`) and by the libFuzzer targets in `/verif/ws-io-fuzz`.
+//!
+//! Every interpreter is a pure function `fn(&Case) -> vcore::Outcome`: no RNG, no clock, no state
+//! shared between cases.
+#![allow(async_fn_in_trait)]
+#![allow(clippy::type_complexity)]
 
+pub mod arb;
+pub mod c11_buf;
+pub mod c11_loops;
+pub mod c11_mem;
+pub mod c12;
+pub mod exec;
+pub mod fuzz;
+pub mod mock;
+pub mod pat;
